@@ -133,6 +133,9 @@ type d17 struct {
 	Rs     []string `json:"rs"`
 	NonNil []bool   `json:"nonnil"`
 	Fail   bool     `json:"fail"`
+	TNil   bool     `json:"tnil"`
+	Once   bool     `json:"once"`
+	Second bool     `json:"second"`
 }
 
 func tokOfAny(x interface{}) int {
@@ -151,6 +154,14 @@ func tokOfAny(x interface{}) int {
 		return v.ID
 	}
 	return scn.IDOf(reflect.ValueOf(x))
+}
+
+// number of outputs of the described function (a final "err" is not one)
+func outsOf(d d17) []string {
+	if n := len(d.Rs); n > 0 && d.Rs[n-1] == "err" {
+		return d.Rs[:n-1]
+	}
+	return d.Rs
 }
 
 func obsC17(raw json.RawMessage) map[string]interface{} {
@@ -180,6 +191,9 @@ func obsC17(raw json.RawMessage) map[string]interface{} {
 			case "err":
 				if d.NonNil[i] {
 					var e error = &scn.FailErr{Fn: 0, ID: i + 1}
+					if d.TNil {
+						e = (*scn.FailErr)(nil)
+					}
 					res[i] = reflect.ValueOf(&e).Elem()
 				} else {
 					res[i] = reflect.Zero(tErr)
@@ -196,9 +210,23 @@ func obsC17(raw json.RawMessage) map[string]interface{} {
 		}
 		return res
 	})
-	f, err := am.NewFunc(fn.Interface())
+	var fopts []am.Arg
+	if d.Once {
+		fopts = append(fopts, am.FuncOnce())
+	}
+	f, err := am.NewFunc(fn.Interface(), fopts...)
 	if err != nil {
 		return map[string]interface{}{"ev": "obs", "len": -1, "outs": []int{}, "errnil": false, "errtok": -1, "unsat": false, "detail": "newfunc: " + err.Error()}
+	}
+	if d.Second {
+		// the observed call is the second one; the first one is given what the function needs
+		var first []am.Arg
+		if d.Fail {
+			first = append(first, am.Typed(scn.MkValue("T6", 99).Interface()))
+		}
+		if r1 := f.Call(first...); d.Fail && r1.Len() != len(outsOf(d)) {
+			return map[string]interface{}{"ev": "obs", "len": -1, "outs": []int{}, "errnil": false, "errtok": -1, "unsat": false, "detail": "first call did not resolve"}
+		}
 	}
 	res := f.Call()
 	obs := map[string]interface{}{"ev": "obs", "len": res.Len()}
@@ -386,6 +414,30 @@ func obsC14(raw json.RawMessage) map[string]interface{} {
 
 // ---------------------------------------------------------------- C15
 
+// symbols of ValueSet.tla for names / subtypes that need care, and the strings they stand for
+var oddStrings = map[string]string{"xdotless": "\u0131", "xdigit": "1a", "xunder": "_a", "xcomma": "a,b", "xquote": "a\"b", "xback": "a\\b"}
+var oddSymbols = func() map[string]string {
+	m := map[string]string{}
+	for k, v := range oddStrings {
+		m[v] = k
+	}
+	return m
+}()
+
+func realStr(s string) string {
+	if r, ok := oddStrings[s]; ok {
+		return r
+	}
+	return s
+}
+
+func symStr(s string) string {
+	if r, ok := oddSymbols[s]; ok {
+		return r
+	}
+	return s
+}
+
 type d15 struct {
 	Vals []jval `json:"vals"`
 	Kind string `json:"kind"`
@@ -410,7 +462,7 @@ func obsC15(raw json.RawMessage) map[string]interface{} {
 		}
 		var vs []am.Value
 		for _, v := range d.Vals {
-			vs = append(vs, am.Value{Name: v.Name, Type: tyOf(v.Type), Subtype: v.Sub})
+			vs = append(vs, am.Value{Name: realStr(v.Name), Type: tyOf(v.Type), Subtype: realStr(v.Sub)})
 		}
 		return am.NewValueSet(vs)
 	}
@@ -422,7 +474,11 @@ func obsC15(raw json.RawMessage) map[string]interface{} {
 		return obs
 	}
 	obs["ok"] = true
-	obs["values"] = valuesOf(set)
+	rep := valuesOf(set)
+	for i := range rep {
+		rep[i].Name, rep[i].Sub = symStr(rep[i].Name), symStr(rep[i].Sub)
+	}
+	obs["values"] = rep
 	// which value (by position) does a pointer denote?  mark every value with its position first
 	vals := set.Values()
 	idx := func(p *am.Value) int {
@@ -439,10 +495,10 @@ func obsC15(raw json.RawMessage) map[string]interface{} {
 	named, typed, ts := make([]int, n), make([]int, n), make([]int, n)
 	for i, v := range d.Vals {
 		if v.Name != "" {
-			named[i] = idx(set.Named(strings.ToLower(v.Name)))
+			named[i] = idx(set.Named(strings.ToLower(realStr(v.Name))))
 		}
 		typed[i] = idx(set.Typed(tyOf(v.Type)))
-		ts[i] = idx(set.TypedSubtype(tyOf(v.Type), v.Sub))
+		ts[i] = idx(set.TypedSubtype(tyOf(v.Type), realStr(v.Sub)))
 	}
 	obs["named"], obs["typed"], obs["ts"] = named, typed, ts
 	// round trip: put token i into value i, render as a signature, load into a second set
